@@ -2,7 +2,7 @@
 //! evaluator, issuing every call through every path a call can take, and compares what the callee
 //! received with what the specification prescribes.
 //!
-//!   vh_c08 run <cases> <out.json> [--threads N] [--chunk N] [--top N] [--paths a,b,..]
+//!   vh_c08 run <cases|-> <out.json> [--log F] [--threads N] [--chunk N] [--top N] [--paths a,b,..] [--verbose 1]
 //!   vh_c08 static <toks.ndjson> <out.json>
 //!
 //! `<cases>` is either TLC's raw stdout (lines `<<"CASE", "json">>`) or plain ndjson.
@@ -103,22 +103,44 @@ fn parse_case(raw: J) -> Case {
     }
 }
 
-fn read_cases(path: &str) -> anyhow::Result<Vec<Case>> {
-    let f = std::io::BufReader::with_capacity(1 << 20, std::fs::File::open(path)?);
-    let mut v = Vec::new();
-    let pre = "<<\"CASE\", \"";
-    for line in f.lines() {
-        let line = line?;
-        let js: String = if line.starts_with(pre) && line.ends_with("\">>") {
-            line[pre.len()..line.len() - 3].replace("\\\"", "\"").replace("\\\\", "\\")
-        } else if line.starts_with('{') {
-            line
-        } else {
-            continue;
-        };
-        v.push(parse_case(serde_json::from_str(&js)?));
+/// Streaming reader: TLC's raw stdout (lines `<<"CASE", "json">>`) or plain ndjson.
+struct CaseReader {
+    lines: std::io::Lines<std::io::BufReader<Box<dyn std::io::Read>>>,
+    /// everything that is not a case (TLC's own messages), for the driver
+    log: Option<std::fs::File>,
+}
+
+impl CaseReader {
+    fn open(path: &str, log: Option<&str>) -> anyhow::Result<CaseReader> {
+        let r: Box<dyn std::io::Read> = if path == "-" { Box::new(std::io::stdin()) } else { Box::new(std::fs::File::open(path)?) };
+        Ok(CaseReader {
+            lines: std::io::BufReader::with_capacity(1 << 20, r).lines(),
+            log: match log { Some(p) => Some(std::fs::File::create(p)?), None => None },
+        })
     }
-    Ok(v)
+
+    /// Up to `n` further cases; empty at end of input.
+    fn window(&mut self, n: usize) -> anyhow::Result<Vec<Case>> {
+        let pre = "<<\"CASE\", \"";
+        let mut v = Vec::new();
+        while v.len() < n {
+            let Some(line) = self.lines.next() else { break };
+            let line = line?;
+            let js: String = if line.starts_with(pre) && line.ends_with("\">>") {
+                line[pre.len()..line.len() - 3].replace("\\\"", "\"").replace("\\\\", "\\")
+            } else if line.starts_with('{') {
+                line
+            } else {
+                if let Some(f) = &mut self.log {
+                    use std::io::Write;
+                    writeln!(f, "{}", line)?;
+                }
+                continue;
+            };
+            v.push(parse_case(serde_json::from_str(&js)?));
+        }
+        Ok(v)
+    }
 }
 
 // ------------------------------------------------------------------------------------------
@@ -159,7 +181,10 @@ fn render_def(name: &str, sig: &[Param]) -> String {
     format!("def {}({}): return [{}]\n", name, render_params(sig), names.join(", "))
 }
 
-fn render_args(c: &Case, variant: usize) -> String {
+/// `*seq` is written as a list or as a tuple literal; which one depends only on the case (and on
+/// the path, through `flip`), so that a replay renders exactly what the run rendered.
+fn render_args(c: &Case, flip: usize) -> String {
+    let variant = c.pos.len() + c.named.len() + c.star.as_ref().map_or(0, |s| s.len()) + flip;
     let mut parts: Vec<String> = c.pos.iter().map(|v| v.to_string()).collect();
     for (n, v) in &c.named {
         parts.push(format!("{}={}", n, v));
@@ -358,10 +383,28 @@ fn run_chunk(sig: &[Param], cases: &[&Case], o: &Opts) -> Result<Vec<PathObs>, S
     src_a.push_str("L = [f]\nS = struct(f = f)\ndef ident(x): return x\n");
     for (i, c) in cases.iter().enumerate() {
         for (k, (_, callee)) in STYLES.iter().enumerate() {
-            src_a.push_str(&format!("def w{}_{}(): return {}({})\n", i, k, callee, render_args(c, i)));
+            src_a.push_str(&format!("def w{}_{}(): return {}({})\n", i, k, callee, render_args(c, k)));
         }
     }
     let host_ok = |c: &Case| c.star.is_none() && c.starstar.is_none();
+
+    // module T: the call as a module-level statement, its own compilation unit each time
+    // (a small module: evaluating a statement costs time proportional to the module's names)
+    if want(o, "top") {
+        let src_t = format!("{}def ident(x): return x\n", render_def("f", sig));
+        Module::with_temp_heap(|module| -> Result<(), String> {
+            let mut eval = Evaluator::new(&module);
+            let ast = parse("t.star", src_t.clone()).map_err(|e| format!("parse T: {}", e))?;
+            eval.eval_module(ast, &globals).map_err(|e| format!("eval T: {}", e))?;
+            for (i, c) in cases.iter().enumerate().take(o.top) {
+                let stmt = format!("f({})\n", render_args(c, 1));
+                res[i].push(("top".to_owned(), observe(|| eval.eval_module(parse("t.star", stmt)?, &globals))));
+                let stmt = format!("ident(f)({})\n", render_args(c, 0));
+                res[i].push(("top_opaque".to_owned(), observe(|| eval.eval_module(parse("t.star", stmt)?, &globals))));
+            }
+            Ok(())
+        })?;
+    }
 
     let fa: FrozenModule = Module::with_temp_heap(|module| -> Result<FrozenModule, String> {
         {
@@ -408,13 +451,6 @@ fn run_chunk(sig: &[Param], cases: &[&Case], o: &Opts) -> Result<Vec<PathObs>, S
                         res[i].push(("can_fill_native".to_owned(), obs));
                     }
                 }
-                // the call as a module-level statement (its own compilation unit)
-                if i < o.top && want(o, "top") {
-                    let stmt = format!("f({})\n", render_args(c, i + 1));
-                    res[i].push(("top".to_owned(), observe(|| eval.eval_module(parse("t.star", stmt)?, &globals))));
-                    let stmt = format!("ident(f)({})\n", render_args(c, i));
-                    res[i].push(("top_opaque".to_owned(), observe(|| eval.eval_module(parse("t.star", stmt)?, &globals))));
-                }
             }
         }
         module.freeze().map_err(|e| format!("freeze A: {:?}", e))
@@ -446,8 +482,8 @@ fn run_chunk(sig: &[Param], cases: &[&Case], o: &Opts) -> Result<Vec<PathObs>, S
     if want(o, "load") || want(o, "load_top") || want(o, "load_frozen") {
         let mut src_b = String::from("load(\"a.star\", \"f\", \"S\")\n");
         for (i, c) in cases.iter().enumerate() {
-            src_b.push_str(&format!("def u{}(): return f({})\n", i, render_args(c, i + 1)));
-            src_b.push_str(&format!("def us{}(): return S.f({})\n", i, render_args(c, i)));
+            src_b.push_str(&format!("def u{}(): return f({})\n", i, render_args(c, 1)));
+            src_b.push_str(&format!("def us{}(): return S.f({})\n", i, render_args(c, 0)));
         }
         let loader = Loader(&fa);
         let fb: FrozenModule = Module::with_temp_heap(|module| -> Result<FrozenModule, String> {
@@ -456,21 +492,30 @@ fn run_chunk(sig: &[Param], cases: &[&Case], o: &Opts) -> Result<Vec<PathObs>, S
                 eval.set_loader(&loader);
                 let ast = parse("b.star", src_b.clone()).map_err(|e| format!("parse B: {}", e))?;
                 eval.eval_module(ast, &globals).map_err(|e| format!("eval B: {}", e))?;
-                for (i, c) in cases.iter().enumerate() {
+                for i in 0..cases.len() {
                     if want(o, "load") {
                         let w = module.get(&format!("u{}", i)).ok_or("u missing")?;
                         res[i].push(("load".to_owned(), observe(|| eval.eval_function(w, &[], &[]))));
                         let w = module.get(&format!("us{}", i)).ok_or("us missing")?;
                         res[i].push(("load_struct".to_owned(), observe(|| eval.eval_function(w, &[], &[]))));
                     }
-                    if i < o.top && want(o, "load_top") {
-                        let stmt = format!("f({})\n", render_args(c, i));
-                        res[i].push(("load_top".to_owned(), observe(|| eval.eval_module(parse("t.star", stmt)?, &globals))));
-                    }
                 }
             }
             module.freeze().map_err(|e| format!("freeze B: {:?}", e))
         })?;
+        if want(o, "load_top") {
+            Module::with_temp_heap(|module| -> Result<(), String> {
+                let mut eval = Evaluator::new(&module);
+                eval.set_loader(&loader);
+                let ast = parse("bt.star", "load(\"a.star\", \"f\")\n".to_owned()).map_err(|e| format!("parse BT: {}", e))?;
+                eval.eval_module(ast, &globals).map_err(|e| format!("eval BT: {}", e))?;
+                for (i, c) in cases.iter().enumerate().take(o.top) {
+                    let stmt = format!("f({})\n", render_args(c, 0));
+                    res[i].push(("load_top".to_owned(), observe(|| eval.eval_module(parse("t.star", stmt)?, &globals))));
+                }
+                Ok(())
+            })?;
+        }
         if want(o, "load_frozen") {
             Module::with_temp_heap(|module| -> Result<(), String> {
                 let mut eval = Evaluator::new(&module);
@@ -491,18 +536,25 @@ fn run_chunk(sig: &[Param], cases: &[&Case], o: &Opts) -> Result<Vec<PathObs>, S
 struct Tally {
     cases: usize,
     evals: usize,
+    signatures: usize,
+    chunks: usize,
     by_path: BTreeMap<String, [usize; 2]>, // path -> [ok, err] as expected
+    by_class: BTreeMap<String, usize>,     // the specification's outcome class -> cases
+    features: BTreeMap<String, usize>,     // well-formed calls using a mechanism -> cases
+    nontrivial: usize,
     disagreements: Vec<J>,
     dis_count: BTreeMap<String, usize>,
     chunk_errors: Vec<String>,
+    observations: Vec<J>,
+    samples: Vec<J>,
 }
 
-fn compare(c: &Case, path: &str, obs: &Obs) -> Option<(&'static str, &'static str)> {
+fn compare(c: &Case, obs: &Obs) -> Option<(&'static str, &'static str)> {
     match (c.exp_ok, obs) {
         (true, Obs::Ok(v)) => if *v == c.exp_vals { None } else { Some(("ok", "wrong_value")) },
         (true, Obs::Err(_)) => Some(("ok", "error")),
         (false, Obs::Ok(_)) => Some(("error", "ok")),
-        (false, Obs::Err(_)) => { let _ = path; None }
+        (false, Obs::Err(_)) => None,
         (true, Obs::Panic(_)) => Some(("ok", "panic")),
         (false, Obs::Panic(_)) => Some(("error", "panic")),
     }
@@ -516,121 +568,194 @@ fn obs_json(o: &Obs) -> J {
     }
 }
 
+fn source_of(c: &Case) -> String {
+    format!("{}f({})", render_def("f", &c.sig), render_args(c, 0))
+}
+
+/// Tally what the specification says about the case (counted for vacuity guards and evidence).
+fn tally_spec(t: &mut Tally, c: &Case) {
+    t.cases += 1;
+    let class = if c.exp_ok { "ok".to_owned() } else { c.raw["err"].as_str().unwrap_or("?").to_owned() };
+    *t.by_class.entry(class).or_insert(0) += 1;
+    if c.exp_ok {
+        let mut any = false;
+        let mut f = |name: &str, on: bool, t: &mut Tally| {
+            if on {
+                *t.features.entry(name.to_owned()).or_insert(0) += 1;
+                any = true;
+            }
+        };
+        f("named", !c.named.is_empty(), t);
+        f("star", c.star.as_ref().map_or(false, |s| !s.is_empty()), t);
+        f("starstar", c.starstar.as_ref().map_or(false, |s| !s.is_empty()), t);
+        f("default_used", c.raw["dflt"].as_i64().unwrap_or(0) > 0, t);
+        let vals = c.exp_vals.as_array().cloned().unwrap_or_default();
+        f("args_overflow", vals.iter().any(|v| v[0] == "t" && !v[1].as_array().unwrap().is_empty()), t);
+        f("kwargs_collected", vals.iter().any(|v| v[0] == "d" && !v[1].as_array().unwrap().is_empty()), t);
+        f("posonly_name_to_kwargs", vals.iter().any(|v| v[0] == "d" && v[1].as_array().unwrap().iter().any(|k|
+            c.sig.iter().any(|p| p.kind != "normal" && p.kind != "kwonly" && Some(p.name.as_str()) == k.as_str()))), t);
+        if any {
+            t.nontrivial += 1;
+        }
+    } else {
+        t.nontrivial += 1;
+    }
+}
+
+fn process_chunk(t: &mut Tally, ch: &[&Case], o: &Opts, verbose: bool) {
+    t.chunks += 1;
+    let sig = &ch[0].sig;
+    let r = match util::catch(|| run_chunk(sig, ch, o)) {
+        Ok(r) => r,
+        Err(p) => Err(format!("panic outside a call: {}", p)),
+    };
+    match r {
+        Err(e) => {
+            // the modules could not even be built: an observation about every case in the chunk
+            t.chunk_errors.push(e.clone());
+            for c in ch {
+                tally_spec(t, c);
+                let exp = if c.exp_ok { "ok" } else { "error" };
+                let n = t.dis_count.entry(format!("setup|{}|setup_failed", exp)).or_insert(0);
+                *n += 1;
+                if *n <= 5 {
+                    t.disagreements.push(json!({"path": "setup", "expected": exp, "got": "setup_failed",
+                        "case": c.raw, "observed": {"err": e}, "source": source_of(c)}));
+                }
+            }
+        }
+        Ok(res) => {
+            for (c, po) in ch.iter().zip(res.iter()) {
+                tally_spec(t, c);
+                for (path, obs) in po {
+                    t.evals += 1;
+                    let e = t.by_path.entry(path.clone()).or_insert([0, 0]);
+                    e[if c.exp_ok { 0 } else { 1 }] += 1;
+                    if let Some((exp, got)) = compare(c, obs) {
+                        let n = t.dis_count.entry(format!("{}|{}|{}", path, exp, got)).or_insert(0);
+                        *n += 1;
+                        if *n <= 5 {
+                            t.disagreements.push(json!({"path": path, "expected": exp, "got": got,
+                                "case": c.raw, "observed": obs_json(obs), "source": source_of(c)}));
+                        }
+                    }
+                }
+                let want_sample = t.samples.len() < 3 && c.exp_ok && !c.named.is_empty() && c.star.is_some() && t.cases % 97 == 0;
+                if verbose || want_sample {
+                    let m: serde_json::Map<String, J> = po.iter().map(|(p, o)| (p.clone(), obs_json(o))).collect();
+                    let row = json!({"case": c.raw, "source": source_of(c), "obs": m});
+                    if verbose {
+                        t.observations.push(row);
+                    } else {
+                        t.samples.push(row);
+                    }
+                }
+            }
+        }
+    }
+}
+
+fn merge(t: &mut Tally, l: Tally) {
+    t.cases += l.cases;
+    t.evals += l.evals;
+    t.chunks += l.chunks;
+    t.nontrivial += l.nontrivial;
+    for (k, v) in l.by_path {
+        let e = t.by_path.entry(k).or_insert([0, 0]);
+        e[0] += v[0];
+        e[1] += v[1];
+    }
+    for (k, v) in l.by_class {
+        *t.by_class.entry(k).or_insert(0) += v;
+    }
+    for (k, v) in l.features {
+        *t.features.entry(k).or_insert(0) += v;
+    }
+    for (k, v) in l.dis_count {
+        *t.dis_count.entry(k).or_insert(0) += v;
+    }
+    t.disagreements.extend(l.disagreements);
+    t.chunk_errors.extend(l.chunk_errors);
+    t.observations.extend(l.observations);
+    t.samples.extend(l.samples);
+}
+
 fn cmd_run(args: &[String]) -> anyhow::Result<()> {
-    let cases = read_cases(&args[0])?;
     let out_path = &args[1];
     let opts = &args[2..];
-    let threads = util::opt_u64(opts, "--threads", 8) as usize;
+    let mut reader = CaseReader::open(&args[0], util::opt(opts, "--log"))?;
+    // threads share one address space and the evaluator's heaps are mmap-heavy: processes scale,
+    // threads do not (measured) -- the driver runs one process per slice instead
+    let threads = util::opt_u64(opts, "--threads", 1) as usize;
     let chunk = util::opt_u64(opts, "--chunk", 400) as usize;
+    let window = util::opt_u64(opts, "--window", 20000) as usize;
     let o = Opts {
-        top: util::opt_u64(opts, "--top", 40) as usize,
+        top: util::opt_u64(opts, "--top", 1 << 30) as usize,
         paths: util::opt(opts, "--paths").map(|s| s.split(',').map(|x| x.to_owned()).collect()),
     };
     let verbose = util::opt(opts, "--verbose").is_some();
-
-    // group by signature, then cut into chunks
-    let mut groups: HashMap<&str, Vec<&Case>> = HashMap::new();
-    let mut order: Vec<&str> = Vec::new();
-    for c in &cases {
-        let e = groups.entry(c.sig_key.as_str()).or_insert_with(|| {
-            order.push(c.sig_key.as_str());
-            Vec::new()
-        });
-        e.push(c);
-    }
-    let mut chunks: Vec<&[&Case]> = Vec::new();
-    for k in &order {
-        for ch in groups[k].chunks(chunk) {
-            chunks.push(ch);
+    let mut total = Tally::default();
+    let mut seen_sigs: std::collections::HashSet<String> = std::collections::HashSet::new();
+    loop {
+        let cases = reader.window(window)?;
+        if cases.is_empty() {
+            break;
         }
-    }
-    let next = AtomicUsize::new(0);
-    let tally = Mutex::new(Tally::default());
-    let all_obs: Mutex<Vec<J>> = Mutex::new(Vec::new());
-    std::thread::scope(|s| {
-        for _ in 0..threads {
-            s.spawn(|| {
-                let mut local = Tally::default();
-                let mut local_obs = Vec::new();
-                loop {
-                    let i = next.fetch_add(1, Ordering::SeqCst);
-                    if i >= chunks.len() {
-                        break;
-                    }
-                    let ch = chunks[i];
-                    let sig = &ch[0].sig;
-                    let r = match util::catch(|| run_chunk(sig, ch, &o)) {
-                        Ok(r) => r,
-                        Err(p) => Err(format!("panic outside a call: {}", p)),
-                    };
-                    match r {
-                        Err(e) => {
-                            // the module could not even be built: an observation about every case in it
-                            local.chunk_errors.push(e.clone());
-                            for c in ch {
-                                local.cases += 1;
-                                let key = format!("setup|{}|setup_failed", if c.exp_ok { "ok" } else { "error" });
-                                let n = local.dis_count.entry(key).or_insert(0);
-                                *n += 1;
-                                if *n <= 5 {
-                                    local.disagreements.push(json!({"path": "setup", "expected": if c.exp_ok {"ok"} else {"error"},
-                                        "got": "setup_failed", "case": c.raw, "observed": {"err": e}}));
-                                }
-                            }
-                        }
-                        Ok(res) => {
-                            for (c, po) in ch.iter().zip(res.iter()) {
-                                local.cases += 1;
-                                for (path, obs) in po {
-                                    local.evals += 1;
-                                    let e = local.by_path.entry(path.clone()).or_insert([0, 0]);
-                                    e[if c.exp_ok { 0 } else { 1 }] += 1;
-                                    if let Some((exp, got)) = compare(c, path, obs) {
-                                        let key = format!("{}|{}|{}", path, exp, got);
-                                        let n = local.dis_count.entry(key).or_insert(0);
-                                        *n += 1;
-                                        if *n <= 5 {
-                                            local.disagreements.push(json!({"path": path, "expected": exp, "got": got,
-                                                "case": c.raw, "observed": obs_json(obs),
-                                                "source": format!("{}f({})", render_def("f", &c.sig), render_args(c, 0))}));
-                                        }
-                                    }
-                                }
-                                if verbose {
-                                    let m: serde_json::Map<String, J> = po.iter().map(|(p, o)| (p.clone(), obs_json(o))).collect();
-                                    local_obs.push(json!({"case": c.raw, "obs": m}));
-                                }
-                            }
-                        }
-                    }
-                }
-                let mut t = tally.lock().unwrap();
-                t.cases += local.cases;
-                t.evals += local.evals;
-                for (k, v) in local.by_path {
-                    let e = t.by_path.entry(k).or_insert([0, 0]);
-                    e[0] += v[0];
-                    e[1] += v[1];
-                }
-                for (k, v) in local.dis_count {
-                    *t.dis_count.entry(k).or_insert(0) += v;
-                }
-                t.disagreements.extend(local.disagreements);
-                t.chunk_errors.extend(local.chunk_errors);
-                all_obs.lock().unwrap().extend(local_obs);
+        // group by signature (TLC prints a signature's calls consecutively), then cut into chunks
+        let mut groups: HashMap<&str, Vec<&Case>> = HashMap::new();
+        let mut order: Vec<&str> = Vec::new();
+        for c in &cases {
+            let e = groups.entry(c.sig_key.as_str()).or_insert_with(|| {
+                order.push(c.sig_key.as_str());
+                Vec::new()
             });
+            e.push(c);
         }
-    });
-    let t = tally.into_inner().unwrap();
+        let mut chunks: Vec<&[&Case]> = Vec::new();
+        for k in &order {
+            seen_sigs.insert((*k).to_owned());
+            for ch in groups[k].chunks(chunk) {
+                chunks.push(ch);
+            }
+        }
+        if threads <= 1 {
+            for ch in &chunks {
+                process_chunk(&mut total, ch, &o, verbose);
+            }
+        } else {
+            let next = AtomicUsize::new(0);
+            let shared = Mutex::new(Tally::default());
+            std::thread::scope(|s| {
+                for _ in 0..threads {
+                    s.spawn(|| {
+                        let mut local = Tally::default();
+                        loop {
+                            let i = next.fetch_add(1, Ordering::SeqCst);
+                            if i >= chunks.len() {
+                                break;
+                            }
+                            process_chunk(&mut local, chunks[i], &o, verbose);
+                        }
+                        merge(&mut shared.lock().unwrap(), local);
+                    });
+                }
+            });
+            merge(&mut total, shared.into_inner().unwrap());
+        }
+    }
+    let t = total;
     let mut dis = t.disagreements;
     dis.truncate(400);
     let out = json!({
-        "cases": t.cases, "evaluations": t.evals, "signatures": order.len(), "chunks": chunks.len(),
+        "cases": t.cases, "evaluations": t.evals, "signatures": seen_sigs.len(), "chunks": t.chunks,
+        "nontrivial": t.nontrivial,
+        "by_class": t.by_class, "features": t.features,
         "by_path": t.by_path.iter().map(|(k, v)| (k.clone(), json!({"expected_ok": v[0], "expected_error": v[1]}))).collect::<serde_json::Map<_, _>>(),
         "disagreement_counts": t.dis_count,
         "disagreements": dis,
         "chunk_errors": t.chunk_errors.iter().take(5).collect::<Vec<_>>(),
-        "observations": all_obs.into_inner().unwrap(),
+        "observations": t.observations,
+        "samples": t.samples,
     });
     std::fs::write(out_path, serde_json::to_string(&out)?)?;
     Ok(())
